@@ -1340,6 +1340,7 @@ def gen_router_cert():
     nb = re.search(r"pub fn new\( source: Ipv4Address, destination: Ipv4Address, protocol: u8, payload_length: u16, \) -> Self \{ Self \{(.*?)\} \}", re.sub(r"\s+", " ", prs))
     mt = nb and re.search(r"time_to_live: (\d+),", nb.group(1))
     ser = "payload_length: self.total_length - BASE_OCTETS," in re.sub(r"\s+", " ", prs)
+    dec_short = bool(re.search(r"let total_length = bytes\.next_u16_be\(\)\.ok_or\(HTS\)\?; if total_length < ihl as u16 \* 4 \{ Err\(ParseError::\w+\)\? \}", re.sub(r"\s+", " ", prs)))
     if not (mw and mo and mf and mt):
         raise ExtractError("ipv4_parsing.rs: BASE_WORDS / BASE_OCTETS / FRAGMENT_OFFSET_MASK / default time_to_live not found")
     arp = strip_comments(read(os.path.join(CORE, "protocols", "arp.rs")))
@@ -1366,6 +1367,8 @@ def gen_router_cert():
              f"def ipv4BaseOctets : Nat := {int(mw.group(1)) * int(mo.group(1))}",
              f"def ipv4FragmentOffsetMask : Nat := {int(mf.group(1).replace('_', ''), 0)}",
              f"def ipv4SerializeSubtractsBaseOctets : Bool := {b(ser)}",
+             "/-- `Ipv4Header::from_bytes` rejects `total_length < ihl * 4` -/",
+             f"def ipv4DecoderRejectsShortTotalLength : Bool := {b(dec_short)}",
              f"def arpResendTries : Nat := {mr.group(1)}",
              f"def arpResendDelayMs : Nat := {md.group(1)}",
              "end Elvis.Gen", ""]
